@@ -149,6 +149,8 @@ def make_pool(tier, rng):
     add(lambda n: [A.Declare(V(n), V(f1))], Fn, ident=f1)
     add(lambda n: [A.Declare(V(n), A.FuncE([], False, [A.Return(I(1))]))], Fn)
     add(lambda n: [A.Declare(V(n), V("print"))], "builtin")
+    add(lambda n: [A.Declare(V(n), A.Index(A.lst(V("print")), I(0)))], "builtin")       # builtins are not cells: comparing two `print`s reaches a function pair
+    add(lambda n: [A.Declare(V(n), A.Prop(S("abc"), "len", True))], "builtin")
     # the same function value sitting in two distinct containers, after an equal prefix
     add(lambda n: [A.Declare(V(n), A.lst(I(0), V(f1)))], [0, Fn])
     add(lambda n: [A.Declare(V(n), A.lst(I(0), V(f1)))], [0, Fn])
@@ -300,11 +302,11 @@ def pair_work(arg):
         if "sample" not in out:
             out["sample"] = {"pair": "%s %s %s" % (ni, op, nj), "values": [repr(show(ai)), repr(show(aj))], "abstract_verdict": k[0], "script_tail": r.text[-400:]}
         out["kinds"][k[0]] = out["kinds"].get(k[0], 0) + 1
-        if o.timeout or o.stack_overflow:
+        if o.timeout:
             out["inconclusive"] += 1
             continue
         what = "%s %s %s (values %r, %r)" % (ni, op, nj, show(ai), show(aj))
-        if o.crashed:
+        if o.died:
             out["viol"].append(("crash", "crash comparing " + what + ": " + o.err.decode("utf-8", "replace")[-200:], r.text))
             continue
         if o.code == 0:
